@@ -685,10 +685,25 @@ class Execution:
                         self.events.append({"e": "Interrupt", "run": run_ids()})
                         interrupted = True
                         proc.send_signal(getattr(signal, "SIG" + sig))
+                    elif running and not pending_done and step.get("burst") and len(running) > 1:
+                        # every running command completes before ninja looks again: ninja is stopped meanwhile, so it
+                        # finds several finished commands in one poll round
+                        proc.send_signal(signal.SIGSTOP)
+                        for r in list(running.keys()):
+                            send_script(r)
+                            self._wait_gone(self.pids.get(r, 0))
+                        proc.send_signal(signal.SIGCONT)
                     elif running and not pending_done:
                         ids = sorted(running.keys(), key=lambda r: list(running.keys()).index(r))
                         idx = self.ch.choose(len(ids)) if len(ids) > 1 else 0
                         send_script(ids[idx])
+                        if fails.get(ids[idx], {}).get("code") == 130:
+                            # ninja takes a command that ends with status 130 for a user interrupt: it stops the build and waits for
+                            # the commands still running (it signals them only if it received a signal itself), so they end on their own
+                            interrupted = True
+                            for r in list(running.keys()):
+                                if r != ids[idx]:
+                                    send_script(r)
             if proc.poll() is not None:
                 # drain
                 try:
